@@ -172,7 +172,9 @@ func (c *Class) Evaluation(
 
 		parentNode := base.ClassNode{Frame: parentFrame, Class: parentClass}
 
-		if !slices.Contains(base.ClassInheritanceMap[classNode], parentNode) {
+		if base.IsInheritanceCycle(classNode, parentNode) {
+			p.Fatal(ctx, fmt.Errorf("cyclic inheritance: %s", nextT.ToString()))
+		} else if !slices.Contains(base.ClassInheritanceMap[classNode], parentNode) {
 			base.ClassInheritanceMap[classNode] =
 				append(base.ClassInheritanceMap[classNode], parentNode)
 		}
